@@ -71,11 +71,18 @@ impl Method for HMA {
 		#[allow(clippy::cast_sign_loss)]
 		match length {
 			0 | 1 => Err(Error::WrongMethodParameters),
-			length => Ok(Self {
-				wma1: WMA::new(length / 2, value)?,
-				wma2: WMA::new(length, value)?,
-				wma3: WMA::new((length as ValueType).sqrt() as PeriodType, value)?,
-			}),
+			length => {
+				let wma1 = WMA::new(length / 2, value)?;
+				let wma2 = WMA::new(length, value)?;
+
+				// The third average is fed with `2 * wma1 - wma2`. For a constant input that differs from the
+				// input itself by a rounding error, so seed it with what it is actually going to receive:
+				// otherwise its accumulators keep a residue which is added to the output at every step.
+				let initial = wma1.peek().mul_add(2., -wma2.peek());
+				let wma3 = WMA::new((length as ValueType).sqrt() as PeriodType, &initial)?;
+
+				Ok(Self { wma1, wma2, wma3 })
+			}
 		}
 	}
 
